@@ -514,8 +514,13 @@ impl Object for Content {
         match p {
             Primitive::Array(arr) => {
                 for p in arr {
-                    let part = t!(ContentStream::from_primitive(p, resolve));
-                    parts.push(part);
+                    let is_ref = matches!(p, Primitive::Reference(_));
+                    match ContentStream::from_primitive(p, resolve) {
+                        Ok(part) => parts.push(part),
+                        // a part that refers to an object that does not exist is skipped
+                        Err(e) if is_ref && e.is_missing_object() => {}
+                        Err(e) => return Err(e)
+                    }
                 }
             }
             Primitive::Reference(r) => return Self::from_primitive(t!(resolve.resolve(r)), resolve),
